@@ -94,12 +94,14 @@ def threshold_provenance(ctx):
             continue
         sites = [(b.i, i, s) for b in f.blocks for i, s in enumerate(b.stmts)
                  if s["k"] == "assign" and s["rv"]["k"] == "agg" and s["rv"].get("adt") == CORE + "keys::KeyPackage"]
-        if not sites:
+        # the constructor function is the same construction one call away: KeyPackage::new(id, share, vshare, vk, min_signers)
+        news = [(bb, t) for (bb, t, ci) in f.calls() if ci and ci.get("path", "").endswith("keys::KeyPackage::<C>::new")]
+        if not sites and not news:
             continue
         v = FnView.get(P, f)
-        for (bb, i, st) in sites:
-            t = v.cx.rvalue(st["rv"], (f.key, bb, i))
-            ms = get_field(t, "min_signers")
+        values = [get_field(v.cx.rvalue(st["rv"], (f.key, bb, i)), "min_signers") for (bb, i, st) in sites]
+        values += [v.call_args(bb)[4] for (bb, t) in news if len(v.call_args(bb)) == 5]
+        for ms in values:
             w = Width()
             core, _ = strip_casts(ms)
             while core[0] in ("some", "ok") and core[1][0] not in ("call",) or (core[0] in ("some", "ok") and core[1][0] == "ok_or"):
